@@ -11,7 +11,8 @@ Record tx_obs := mk_tx_obs {
   o_layout_same : bool;           (* the same program in another layout lowers to the same bytes *)
   o_repeat_same : bool;           (* repetitions in one process and in fresh processes: one byte string *)
   o_tii_params : list string;     (* keys of TII.transactions[tx].params *)
-  o_tii_tir_same : bool }.        (* the envelope in the TII decodes to the IR that lowering produced *)
+  o_tii_tir_same : bool;          (* the envelope in the TII decodes to the IR that lowering produced *)
+  o_impl_params : list string }.  (* find_params (the implementation's) of the IR decoded from the TII *)
 
 Record case := mk_case {
   c_prog : sprogram;
@@ -72,6 +73,11 @@ Definition tx_checks (c : case) (o : tx_obs) : list (N * bool) :=
     (173%N, negb (c_tii c) || dup_free (map to_lower declared));
     (174%N, negb (c_tii c) || forallb (fun k => negb (existsb (fun r => bool_decide (to_lower r = to_lower k)) required)
                                                  || bool_decide (k ∈ required)) declared);
+    (* the server keeps only the arguments that find_params reports: every declared key that the
+       body uses (the model's walk of the IR) is reported by the implementation's find_params *)
+    (175%N, negb (c_tii c) || forallb (fun k => negb (bool_decide (k ∈ declared)) || bool_decide (k ∈ o_impl_params o)) required);
+    (5%N, negb (c_tii c) || (forallb (fun k => bool_decide (k ∈ o_impl_params o)) required
+                             && forallb (fun k => bool_decide (k ∈ required)) (o_impl_params o)));
     (* C18 *)
     (181%N, o_repeat_same o) ].
 
